@@ -16,6 +16,7 @@ import math
 import struct
 import typing
 
+from . import _verif_trace
 from ._error import Error
 from ._serializable import (
     SerializableType,
@@ -290,6 +291,8 @@ class _BitWriter:
 
         Bits are written LSB-first within each byte, little-endian for multi-byte values.
         """
+        if _verif_trace.ENABLED:
+            _verif_trace.emit("wr", wid=id(self), off=self._bit_offset, n=bit_length, value=str(value))
         if self._bit_offset % 8 == 0 and bit_length >= 8:
             full_bytes, remaining = divmod(bit_length, 8)
             mask = (1 << (full_bytes * 8)) - 1
@@ -338,6 +341,8 @@ class _BitWriter:
 
     def finish(self) -> bytes:
         """Return immutable bytes from the internal buffer."""
+        if _verif_trace.ENABLED:
+            _verif_trace.emit("wr_finish", wid=id(self), off=self._bit_offset, data=list(self._buffer))
         return bytes(self._buffer)
 
     @property
@@ -358,6 +363,8 @@ class _BitReader:
         self._start_offset: int = bit_offset
         self._bit_offset: int = bit_offset
         self._bit_limit: int | None = bit_limit
+        if _verif_trace.ENABLED:
+            _verif_trace.emit("rd_new", rid=id(self), data=list(self._data), start=bit_offset, limit=bit_limit)
 
     def read_bits(self, bit_length: int) -> int:
         """
@@ -365,15 +372,21 @@ class _BitReader:
 
         Out-of-bounds bits return zeros (implicit zero extension).
         """
+        if _verif_trace.ENABLED:
+            _verif_trace.emit("rd_begin", rid=id(self), off=self._bit_offset, n=bit_length)
         if self._bit_limit is not None:
             bits_consumed = self._bit_offset - self._start_offset
             available = max(0, self._bit_limit - bits_consumed)
             if available == 0:
                 self._bit_offset += bit_length
+                if _verif_trace.ENABLED:
+                    _verif_trace.emit("rd_end", rid=id(self), off=self._bit_offset, result="0", path="exhausted")
                 return 0
             if bit_length > available:
                 result = self.read_bits(available)
                 self._bit_offset += bit_length - available
+                if _verif_trace.ENABLED:
+                    _verif_trace.emit("rd_end", rid=id(self), off=self._bit_offset, result=str(result), path="clipped")
                 return result
 
         if self._bit_offset % 8 == 0 and bit_length >= 8:
@@ -389,6 +402,8 @@ class _BitReader:
             self._bit_offset += full_bytes * 8
             if remaining > 0:
                 result |= self.read_bits(remaining) << (full_bytes * 8)
+            if _verif_trace.ENABLED:
+                _verif_trace.emit("rd_end", rid=id(self), off=self._bit_offset, result=str(result), path="fast")
             return result
 
         result = 0
@@ -404,6 +419,8 @@ class _BitReader:
             result |= bit << i
 
         self._bit_offset += bit_length
+        if _verif_trace.ENABLED:
+            _verif_trace.emit("rd_end", rid=id(self), off=self._bit_offset, result=str(result), path="slow")
         return result
 
     def align_to(self, bit_alignment: int) -> None:
@@ -414,6 +431,8 @@ class _BitReader:
         if remainder != 0:
             skip_bits = bit_alignment - remainder
             self._bit_offset += skip_bits
+            if _verif_trace.ENABLED:
+                _verif_trace.emit("rd_align", rid=id(self), off=self._bit_offset, a=bit_alignment)
 
     def bounded_subreader(self, bit_count: int) -> _BitReader:
         """
@@ -423,6 +442,8 @@ class _BitReader:
         """
         subreader = _BitReader(self._data, self._bit_offset, bit_count)
         self._bit_offset += bit_count
+        if _verif_trace.ENABLED:
+            _verif_trace.emit("rd_sub", rid=id(self), child=id(subreader), off=self._bit_offset, count=bit_count)
         return subreader
 
     @property
